@@ -35,13 +35,37 @@ type c10Event struct {
 type c10Log struct {
 	mu     sync.Mutex
 	events []c10Event
-	notify chan struct{}
+	gate   chan struct{} // closed (and replaced) whenever a sender logs SendCall
+	slowCb bool
 }
 
 func (l *c10Log) put(e c10Event) {
 	l.mu.Lock()
 	l.events = append(l.events, e)
+	if e.E == "SendCall" && l.gate != nil {
+		close(l.gate)
+		l.gate = make(chan struct{})
+	}
 	l.mu.Unlock()
+}
+
+// linger keeps a callback (and with it the reader goroutine that runs it) busy until the next
+// sender has started or a few milliseconds passed.  The specification lets the reader be
+// arbitrarily slow between its steps, so this only steers which interleavings are produced.
+func (l *c10Log) linger() {
+	if !l.slowCb {
+		return
+	}
+	l.mu.Lock()
+	g := l.gate
+	l.mu.Unlock()
+	select {
+	case <-g:
+		for i := 0; i < 50; i++ {
+			runtime.Gosched()
+		}
+	case <-time.After(5 * time.Millisecond):
+	}
 }
 
 type c10Scn struct {
@@ -73,8 +97,8 @@ type c10Op struct {
 	started chan struct{}
 }
 
-func c10Run(script string, hist [][]any) c10Result {
-	log := &c10Log{}
+func c10Run(script string, hist [][]any, slowCb bool) c10Result {
+	log := &c10Log{gate: make(chan struct{}), slowCb: slowCb}
 	res := c10Result{Script: script, Schedule: hist}
 	scr := c10Scripts[script]
 	clientOps := make(chan *c10Op, 64)
@@ -233,6 +257,7 @@ func c10Run(script string, hist [][]any) c10Result {
 						k = "nil-nil"
 					}
 					log.put(c10Event{E: "Cb", N: cbName, K: k})
+					log.linger()
 				})
 				r := "ok"
 				switch {
@@ -385,12 +410,13 @@ func TestVerifC10Run(t *testing.T) {
 			results[i] = c10Result{Hang: "harness: " + err.Error()}
 			return
 		}
-		r := c10Run(script, s.Hist)
+		slow := i%2 == 1
+		r := c10Run(script, s.Hist, slow)
 		if r.Hang != "" {
 			// confirm: a hang must reproduce
 			n := 1
 			for k := 0; k < 2; k++ {
-				if r2 := c10Run(script, s.Hist); r2.Hang != "" {
+				if r2 := c10Run(script, s.Hist, slow); r2.Hang != "" {
 					n++
 				}
 			}
